@@ -7,6 +7,9 @@ A case may carry, next to the integer bundle (data / kw,kf / tcs,tcore,tf), the 
           construction, as a user or an earlier in-place operation may leave them): C-contiguous copies / non-contiguous views
   dtype : numpy dtype name of a dense tensor's data (integer dtypes keep their dtype inside ttb.tensor)
   between : [op-name] — for op seq: operation applied to the SAME object between two nvecs calls
+  vdtype : numpy dtype name of a sparse tensor's vals (the sptensor constructor keeps integer / float32 value arrays as they are)
+  hdtype : numpy dtype name of a Tucker tensor's core data (values of a sparse core) AND factor matrices (the ttensor constructor
+          keeps them as they are)
   cfmask : [bool] — representations ttensor_cf / ttensor_spcf (wave 5): factor matrix m is held as a scipy.sparse.coo_matrix where
           cfmask[m] (the ttensor constructor admits coo factors; ttensor.nvecs has its own branches for them)
 The tensor the object denotes is  (integer bundle) * 2**(exp + sum(fexp));  its mode-n Gram matrix is the integer Gram matrix times
@@ -71,8 +74,15 @@ def mk(ttb, np, a, rp):
         return X
     if rp == "sparse":
         subs, vals = tgen.dense_to_sparse(shape, a["data"], random.Random(a["sseed"]), a["order"])
-        S = ttb.sptensor(np.array(subs, dtype=int).reshape((len(subs), d)),
-                         np.array([_ld(v, E) for v in vals], dtype=float).reshape((len(vals), 1)), tuple(shape), copy=True)
+        if a.get("vdtype", "float64") != "float64":
+            vd = getattr(np, a["vdtype"])
+            S = ttb.sptensor(np.array(subs, dtype=int).reshape((len(subs), d)), np.array(vals, dtype=vd).reshape((len(vals), 1)),
+                             tuple(shape), copy=True)
+            if S.vals.dtype != vd:
+                raise AssertionError("vals dtype not kept")
+        else:
+            S = ttb.sptensor(np.array(subs, dtype=int).reshape((len(subs), d)),
+                             np.array([_ld(v, E) for v in vals], dtype=float).reshape((len(vals), 1)), tuple(shape), copy=True)
         if lay != "F":
             S.subs = relayout(np, S.subs, lay)
             S.vals = relayout(np, S.vals, lay)
@@ -92,6 +102,20 @@ def mk(ttb, np, a, rp):
             K.weights = relayout(np, K.weights, "view" if lay == "view" else "F")
         return K
     cs = a["tcs"]
+    if a.get("hdtype", "float64") != "float64":     # holders of another element type (exp / fexp / lay do not apply)
+        hd = getattr(np, a["hdtype"])
+        if rp == "ttensor_sp":
+            subs, vals = tgen.dense_to_sparse(cs, a["tcore"], random.Random(a["sseed"]), a["order"])
+            core = ttb.sptensor(np.array(subs, dtype=int).reshape((len(subs), d)), np.array(vals, dtype=hd).reshape((len(vals), 1)),
+                                tuple(cs), copy=True)
+            kept = core.vals.dtype
+        else:
+            core = ttb.tensor(np.array(a["tcore"], dtype=hd).reshape(tuple(cs), order="F"), tuple(cs), copy=True)
+            kept = core.data.dtype
+        T = ttb.ttensor(core, [np.array(a["tf"][n], dtype=hd).reshape((shape[n], cs[n])) for n in range(d)], copy=True)
+        if kept != hd or any(f.dtype != hd for f in T.factor_matrices):
+            raise AssertionError("holder dtype not kept")
+        return T
     if rp in ("ttensor_sp", "ttensor_spcf"):       # sparse core
         subs, vals = tgen.dense_to_sparse(cs, a["tcore"], random.Random(a["sseed"]), a["order"])
         core = ttb.sptensor(np.array(subs, dtype=int).reshape((len(subs), d)),
@@ -209,3 +233,58 @@ def unscale_exact(Y, E2):
             r.append(int(q) if q.denominator == 1 else q)
         out.append(r)
     return out
+
+
+# ---------------------------------------------------------------- holders of a narrow element type (findings C14-F4, C14-F5)
+INT_RANGE = {"int8": (-2 ** 7, 2 ** 7 - 1), "uint8": (0, 2 ** 8 - 1), "int16": (-2 ** 15, 2 ** 15 - 1), "uint16": (0, 2 ** 16 - 1),
+             "int32": (-2 ** 31, 2 ** 31 - 1), "int64": (-2 ** 63, 2 ** 63 - 1)}
+
+
+def tucker_wraps(a):
+    """does an intermediate of ttensor.nvecs — U_m^T U_m (m != n), H = core x_m V_m, GnT Un^T, Y — leave the range of the integer
+    holder type a['hdtype']?  (exact Python integers; mirrors the algebra, not the code)"""
+    lo, hi = INT_RANGE[a["hdtype"]]
+    d, n, cs, shape = len(a["shape"]), a["n"], a["tcs"], a["shape"]
+    Us = a["tf"]
+
+    def out(vals):
+        return any(v < lo or v > hi for v in vals)
+    Vs = []
+    for m in range(d):
+        if m == n:
+            Vs.append(Us[m])
+        else:
+            g = [[sum(Us[m][i][p] * Us[m][i][q] for i in range(shape[m])) for q in range(cs[m])] for p in range(cs[m])]
+            if out(x for row in g for x in row):
+                return True
+            Vs.append(g)
+    # H = core x_m V_m, one mode after the other (every partial result is held in the same type)
+    cur_shape, cur = list(cs), list(a["tcore"])
+    for m in range(d):
+        new_shape = list(cur_shape)
+        new_shape[m] = len(Vs[m])
+        subs = tgen.all_subs(new_shape)
+        strides = [math.prod(cur_shape[:k]) for k in range(d)]
+        nxt = []
+        for sb in subs:
+            base = sum(sb[k] * strides[k] for k in range(d) if k != m)
+            nxt.append(sum(Vs[m][sb[m]][q] * cur[base + q * strides[m]] for q in range(cur_shape[m])))
+        if out(nxt):
+            return True
+        cur_shape, cur = new_shape, nxt
+    # Y = H_(n) (U_n G_(n))^T: bounded through the exact Gram matrix entries and the rows of X_(n) = U_n G_(n)
+    subs_c = tgen.all_subs(cs)
+    rest = [k for k in range(d) if k != n]
+    xn = {}
+    for j, g in zip(subs_c, a["tcore"]):
+        key = tuple(j[k] for k in rest)
+        for i in range(shape[n]):
+            xn[(i, key)] = xn.get((i, key), 0) + Us[n][i][j[n]] * g
+    if out(xn.values()):
+        return True
+    hn = {}
+    for sb, v in zip(tgen.all_subs(cur_shape), cur):
+        hn[(sb[n], tuple(sb[k] for k in rest))] = v
+    keys = {k for _, k in xn}
+    y = [sum(hn[(p, k)] * xn[(q, k)] for k in keys) for p in range(shape[n]) for q in range(shape[n])]
+    return out(y)
